@@ -572,7 +572,10 @@ PINS_TOKENIZE = {
                  Token *tok = new_token(TK_NUM, start, end + 1); tok->val = c; tok->ty = ty; return tok;"""),
     'tokenize_string_literal': (r'^Token\s*\*\s*tokenize_string_literal\s*\(Token \*tok, Type \*basety\)\s*\{',
                  r"""Token *t; if (basety->size == 2) t = read_utf16_string_literal(tok->loc, tok->loc);
-                 else t = read_utf32_string_literal(tok->loc, tok->loc, basety); t->next = tok->next; return t;"""),
+                 else t = read_utf32_string_literal(tok->loc, tok->loc, basety);
+                 t->file = tok->file; t->filename = tok->filename; t->line_no = tok->line_no; t->line_delta = tok->line_delta;
+                 t->at_bol = tok->at_bol; t->has_space = tok->has_space; t->origin = tok->origin;
+                 t->next = tok->next; return t;"""),
     'canonicalize_newline': (r'^static\s+void\s+canonicalize_newline\s*\(char \*p\)\s*\{',
                  r"""int i = 0, j = 0; while (p[i]) { if (p[i] == '\r' && p[i + 1] == '\n') { i += 2; p[j++] = '\n'; }
                  else if (p[i] == '\r') { i++; p[j++] = '\n'; } else { p[j++] = p[i++]; } } p[j] = '\0';"""),
@@ -613,7 +616,8 @@ PIN_JOIN = r"""for (Token *tok1 = tok; tok1->kind != TK_EOF;) { if (tok1->kind !
  for (Token *t = tok1; t != tok2; t = t->next) { memcpy(buf + i, t->str, t->ty->size); i = i + t->ty->size - t->ty->base->size; }
  *tok1 = *copy_token(tok1); tok1->ty = array_of(tok1->ty->base, len); tok1->str = buf; tok1->next = tok2; tok1 = tok2; }"""
 
-PIN_STRING_INIT = r"""if (init->is_flexible) *init = *new_initializer(array_of(init->ty->base, tok->ty->array_len), false);
+PIN_STRING_INIT = r"""if (init->ty->base->size != tok->ty->base->size) error_tok(tok, "array of inappropriate type initialized from string constant");
+ if (init->is_flexible) *init = *new_initializer(array_of(init->ty->base, tok->ty->array_len), false);
  int len = MIN(init->ty->array_len, tok->ty->array_len); switch (init->ty->base->size) {
  case 1: { char *str = tok->str; for (int i = 0; i < len; i++) init->children[i]->expr = new_num(str[i], tok); break; }
  case 2: { uint16_t *str = (uint16_t *)tok->str; for (int i = 0; i < len; i++) init->children[i]->expr = new_num(str[i], tok); break; }
